@@ -103,6 +103,10 @@ def cfm_case(d, tol_kind, general=False):
         ctx.require('eigenvalue_below_minus_tol_rejected', ctx.not_(below(-tol)))
       G = _LtL(L, d)
       ctx.require('result_shape', ctx.cond(np.shape(L) == (d, d)))
+      # also for input that is PSD only up to the tolerance (a slightly negative eigenvalue / diagonal entry): the result is a real, finite
+      # transformation (the negative part is clipped), never NaN
+      ctx.require('accepted_matrix_gives_a_finite_transformation',
+                  ctx.and_(*[ctx.finite(L[i, j]) for i in range(np.shape(L)[0]) for j in range(np.shape(L)[1])]))
       for i in range(d):
         for j in range(d):
           ctx.require('LtL_equals_M_when_psd', ctx.implies(psd, ctx.eq(G[i][j], M[i, j], tol=1e-9)))
